@@ -135,10 +135,11 @@ impl tx3_tir::compile::Compiler for Compiler {
                     .into());
                 }
 
-                Ok(tir::Expression::Number(ops::slot_to_time(
-                    slot,
-                    &self.cursor,
-                )))
+                let time = ops::slot_to_time(slot, &self.cursor).ok_or_else(|| {
+                    CompileError::CoerceError(format!("{}", slot), "timestamp".to_string())
+                })?;
+
+                Ok(tir::Expression::Number(time))
             }
             tir::CompilerOp::ComputeTimeToSlot(x) => {
                 let time = coercion::expr_into_number(&x)?;
@@ -150,10 +151,11 @@ impl tx3_tir::compile::Compiler for Compiler {
                     .into());
                 }
 
-                Ok(tir::Expression::Number(ops::time_to_slot(
-                    time,
-                    &self.cursor,
-                )))
+                let slot = ops::time_to_slot(time, &self.cursor).ok_or_else(|| {
+                    CompileError::CoerceError(format!("{}", time), "slot number".to_string())
+                })?;
+
+                Ok(tir::Expression::Number(slot))
             }
         }
     }
